@@ -180,7 +180,9 @@ func checkC03(w *core.W) {
 			continue
 		}
 		p := p
-		w.Case(func() string { return "let|" + p.Class + " ## let-bound name reused after derivations, a = (" + p.Prog + ")" }, func() {
+		w.Case(func() string {
+			return "let|" + p.Class + " ## let-bound name reused after derivations, a = (" + p.Prog + ")"
+		}, func() {
 			_, last := ends(p.V)
 			sc := obs.Scope("a", p.V, "last", last)
 			sep := make([]string, len(single))
@@ -230,6 +232,6 @@ func opWord(step string) string {
 
 var C03 = core.Check{
 	ID: "C03", Level: "model_checking", Fn: checkC03, Rounds: func(string) int { return 2 },
-	Rule: "branching histories on live values: for every non-empty set state p of the representation space (generation 0 and one generation of operator results, so that slices with spare capacity occur) and every ordered pair (d1,d2) of the derivation alphabet (with / removal at and beyond both ends for every element kind, ++, |, >>, =>, offsets, joins with 2-4 column relations, //seq helpers, ...rest patterns): c1=d1(p), c2=d2(p), c3=d2(c1); the full representation dump of p, c1 and the four most recent results is re-compared after every step; plus the source-level form `let a = P; let b = d1; let c = d2; [a,b,c,b]` against separately evaluated components; non-trivial = p or c1 has spare slice capacity",
+	Rule:   "branching histories on live values: for every non-empty set state p of the representation space (generation 0 and one generation of operator results, so that slices with spare capacity occur) and every ordered pair (d1,d2) of the derivation alphabet (with / removal at and beyond both ends for every element kind, ++, |, >>, =>, offsets, joins with 2-4 column relations, //seq helpers, ...rest patterns): c1=d1(p), c2=d2(p), c3=d2(c1); the full representation dump of p, c1 and the four most recent results is re-compared after every step; plus the source-level form `let a = P; let b = d1; let c = d2; [a,b,c,b]` against separately evaluated components; non-trivial = p or c1 has spare slice capacity",
 	Assume: []string{"rel.VerifShape (hook) dumps every field a later operation could overwrite: slices with length/capacity flags, offsets, nested values", "only the last four sibling results are re-checked after each step"},
 }
